@@ -1,19 +1,88 @@
 // Free-running OpenMP stand-in for the ThreadSanitizer pass: every parallel region creates real
 // threads (pthread_create / pthread_join are happens-before edges TSan understands; libgomp's own
 // futex barriers are not), members really run concurrently.
+//
+// The library only uses `parallel for schedule(static)`, which gcc expands to GOMP_parallel plus
+// omp_get_thread_num / omp_get_num_threads.  The remaining entry points (barrier, critical, atomic,
+// single, dynamically scheduled loops, undeferred tasks) are implemented with pthread primitives so
+// that an edited library which uses them still links and keeps its meaning.
 #include <pthread.h>
+#include <stdio.h>
+#include <stdlib.h>
+#include <stdint.h>
 #include <vector>
+struct WorkShare { unsigned long long start, end, incr, chunk, next; long base; };
+struct Region
+{
+    int T = 1;
+    pthread_barrier_t bar;
+    pthread_mutex_t mu = PTHREAD_MUTEX_INITIALIZER;
+    std::vector<WorkShare> ws;
+    size_t singles_done = 0;
+};
 static thread_local int t_id = 0;
 static thread_local int t_team = 1;
+static thread_local Region *t_reg = nullptr;
+static thread_local size_t t_ws = 0, t_single = 0;
 static int g_default = 4;
-struct Arg { void (*fn)(void *); void *data; int id, team; };
+static pthread_mutex_t g_crit = PTHREAD_MUTEX_INITIALIZER, g_atomic = PTHREAD_MUTEX_INITIALIZER;
+static Region g_solo; // constructs reached outside any team: a team of one
+struct Arg { void (*fn)(void *); void *data; int id, team; Region *reg; };
 static void *tramp(void *p)
 {
     Arg *a = (Arg *)p;
     t_id = a->id;
     t_team = a->team;
+    t_reg = a->reg;
+    t_ws = t_single = 0;
     a->fn(a->data);
     return nullptr;
+}
+static Region *reg() { return t_reg ? t_reg : &g_solo; }
+static bool ws_next(unsigned long long *is, unsigned long long *ie)
+{
+    Region *r = reg();
+    pthread_mutex_lock(&r->mu);
+    bool ok = false;
+    if (t_ws < r->ws.size())
+    {
+        WorkShare &w = r->ws[t_ws];
+        unsigned long long step = w.chunk * w.incr;
+        if (step && w.next < w.end)
+        {
+            *is = w.next;
+            *ie = (w.end - w.next < step) ? w.end : w.next + step;
+            w.next = *ie;
+            ok = true;
+        }
+    }
+    pthread_mutex_unlock(&r->mu);
+    return ok;
+}
+static bool ws_start(bool up, unsigned long long st, unsigned long long en, unsigned long long inc, unsigned long long ch, long base, unsigned long long *is, unsigned long long *ie)
+{
+    if (!up) { fprintf(stderr, "gomp_pthread: downward work-sharing loop is not supported\n"); abort(); }
+    Region *r = reg();
+    pthread_mutex_lock(&r->mu);
+    if (t_ws >= r->ws.size()) r->ws.push_back({st, en, inc, ch ? ch : 1, st, base});
+    pthread_mutex_unlock(&r->mu);
+    return ws_next(is, ie);
+}
+static bool l_start(long st, long en, long inc, long ch, long *is, long *ie)
+{
+    if (inc <= 0) return ws_start(false, 0, 0, 0, 0, 0, 0, 0);
+    unsigned long long a, b;
+    bool r = ws_start(true, 0, en > st ? (unsigned long long)(en - st) : 0, (unsigned long long)inc, (unsigned long long)(ch > 0 ? ch : 1), st, &a, &b);
+    if (r) { *is = st + (long)a; *ie = st + (long)b; }
+    return r;
+}
+static bool l_next(long *is, long *ie)
+{
+    Region *r = reg();
+    unsigned long long a, b;
+    bool ok = ws_next(&a, &b);
+    if (ok) { long base = r->ws[t_ws].base; *is = base + (long)a; *ie = base + (long)b; }
+    return ok;
 }
 extern "C"
 {
@@ -22,19 +91,105 @@ int omp_get_num_threads(void) { return t_team; }
 int omp_get_max_threads(void) { return g_default; }
 void omp_set_num_threads(int n) { if (n > 0) g_default = n; }
 void omp_set_dynamic(int) {}
-void GOMP_parallel(void (*fn)(void *), void *data, unsigned num_threads, unsigned)
+int omp_in_parallel(void) { return t_team > 1; }
+int omp_get_num_procs(void) { return 16; }
+static void run_region(void (*fn)(void *), void *data, unsigned num_threads, Region &R)
 {
     int T = num_threads ? (int)num_threads : g_default;
     if (T < 1) T = 1;
     if (T > 64) T = 64;
-    if (t_team > 1) { fn(data); return; }
+    R.T = T;
+    pthread_barrier_init(&R.bar, nullptr, (unsigned)T);
     std::vector<pthread_t> th(T);
     std::vector<Arg> args(T);
-    for (int i = 1; i < T; i++) { args[i] = {fn, data, i, T}; pthread_create(&th[i], nullptr, tramp, &args[i]); }
+    for (int i = 1; i < T; i++) { args[i] = {fn, data, i, T, &R}; pthread_create(&th[i], nullptr, tramp, &args[i]); }
     int save_id = t_id, save_team = t_team;
-    t_id = 0; t_team = T;
+    Region *save_reg = t_reg;
+    size_t save_ws = t_ws, save_single = t_single;
+    t_id = 0; t_team = T; t_reg = &R; t_ws = t_single = 0;
     fn(data);
-    t_id = save_id; t_team = save_team;
+    t_id = save_id; t_team = save_team; t_reg = save_reg; t_ws = save_ws; t_single = save_single;
     for (int i = 1; i < T; i++) pthread_join(th[i], nullptr);
+    pthread_barrier_destroy(&R.bar);
 }
+void GOMP_parallel(void (*fn)(void *), void *data, unsigned num_threads, unsigned)
+{
+    if (t_team > 1) { Region R; Region *sv = t_reg; int st = t_team, si = t_id; size_t w = t_ws, g = t_single; t_reg = &R; t_team = 1; t_id = 0; t_ws = t_single = 0; fn(data); t_reg = sv; t_team = st; t_id = si; t_ws = w; t_single = g; return; } // nested: one member
+    Region R;
+    run_region(fn, data, num_threads, R);
+}
+static void par_loop(void (*fn)(void *), void *d, unsigned nt, long st, long en, long inc, long ch)
+{
+    if (inc <= 0) { fprintf(stderr, "gomp_pthread: downward work-sharing loop is not supported\n"); abort(); }
+    Region R;
+    R.ws.push_back({0, en > st ? (unsigned long long)(en - st) : 0, (unsigned long long)inc, (unsigned long long)(ch > 0 ? ch : 1), 0, st});
+    if (t_team > 1) { Region *sv = t_reg; int s2 = t_team, si = t_id; size_t w = t_ws, g = t_single; t_reg = &R; t_team = 1; t_id = 0; t_ws = t_single = 0; fn(d); t_reg = sv; t_team = s2; t_id = si; t_ws = w; t_single = g; return; }
+    run_region(fn, d, nt, R);
+}
+void GOMP_parallel_loop_dynamic(void (*fn)(void *), void *d, unsigned nt, long st, long en, long inc, long ch, unsigned) { par_loop(fn, d, nt, st, en, inc, ch); }
+void GOMP_parallel_loop_nonmonotonic_dynamic(void (*fn)(void *), void *d, unsigned nt, long st, long en, long inc, long ch, unsigned) { par_loop(fn, d, nt, st, en, inc, ch); }
+void GOMP_parallel_loop_guided(void (*fn)(void *), void *d, unsigned nt, long st, long en, long inc, long ch, unsigned) { par_loop(fn, d, nt, st, en, inc, ch); }
+void GOMP_parallel_loop_nonmonotonic_guided(void (*fn)(void *), void *d, unsigned nt, long st, long en, long inc, long ch, unsigned) { par_loop(fn, d, nt, st, en, inc, ch); }
+void GOMP_parallel_loop_runtime(void (*fn)(void *), void *d, unsigned nt, long st, long en, long inc, unsigned) { par_loop(fn, d, nt, st, en, inc, 1); }
+void GOMP_parallel_loop_maybe_nonmonotonic_runtime(void (*fn)(void *), void *d, unsigned nt, long st, long en, long inc, unsigned) { par_loop(fn, d, nt, st, en, inc, 1); }
+#define PT_LOOP_ULL(name) \
+    bool GOMP_loop_ull_##name##_start(bool up, unsigned long long st, unsigned long long en, unsigned long long inc, unsigned long long ch, unsigned long long *is, unsigned long long *ie) { return ws_start(up, st, en, inc, ch, 0, is, ie); } \
+    bool GOMP_loop_ull_##name##_next(unsigned long long *is, unsigned long long *ie) { return ws_next(is, ie); }
+PT_LOOP_ULL(dynamic)
+PT_LOOP_ULL(nonmonotonic_dynamic)
+PT_LOOP_ULL(guided)
+PT_LOOP_ULL(nonmonotonic_guided)
+bool GOMP_loop_ull_runtime_start(bool up, unsigned long long st, unsigned long long en, unsigned long long inc, unsigned long long *is, unsigned long long *ie) { return ws_start(up, st, en, inc, 1, 0, is, ie); }
+bool GOMP_loop_ull_runtime_next(unsigned long long *is, unsigned long long *ie) { return ws_next(is, ie); }
+bool GOMP_loop_ull_maybe_nonmonotonic_runtime_start(bool up, unsigned long long st, unsigned long long en, unsigned long long inc, unsigned long long *is, unsigned long long *ie) { return ws_start(up, st, en, inc, 1, 0, is, ie); }
+bool GOMP_loop_ull_maybe_nonmonotonic_runtime_next(unsigned long long *is, unsigned long long *ie) { return ws_next(is, ie); }
+bool GOMP_loop_dynamic_start(long st, long en, long inc, long ch, long *is, long *ie) { return l_start(st, en, inc, ch, is, ie); }
+bool GOMP_loop_dynamic_next(long *is, long *ie) { return l_next(is, ie); }
+bool GOMP_loop_nonmonotonic_dynamic_start(long st, long en, long inc, long ch, long *is, long *ie) { return l_start(st, en, inc, ch, is, ie); }
+bool GOMP_loop_nonmonotonic_dynamic_next(long *is, long *ie) { return l_next(is, ie); }
+bool GOMP_loop_guided_start(long st, long en, long inc, long ch, long *is, long *ie) { return l_start(st, en, inc, ch, is, ie); }
+bool GOMP_loop_guided_next(long *is, long *ie) { return l_next(is, ie); }
+bool GOMP_loop_nonmonotonic_guided_start(long st, long en, long inc, long ch, long *is, long *ie) { return l_start(st, en, inc, ch, is, ie); }
+bool GOMP_loop_nonmonotonic_guided_next(long *is, long *ie) { return l_next(is, ie); }
+bool GOMP_loop_runtime_start(long st, long en, long inc, long *is, long *ie) { return l_start(st, en, inc, 1, is, ie); }
+bool GOMP_loop_runtime_next(long *is, long *ie) { return l_next(is, ie); }
+bool GOMP_loop_maybe_nonmonotonic_runtime_start(long st, long en, long inc, long *is, long *ie) { return l_start(st, en, inc, 1, is, ie); }
+bool GOMP_loop_maybe_nonmonotonic_runtime_next(long *is, long *ie) { return l_next(is, ie); }
+void GOMP_barrier(void) { if (t_reg && t_team > 1) pthread_barrier_wait(&t_reg->bar); }
+bool GOMP_barrier_cancel(void) { GOMP_barrier(); return false; }
+void GOMP_loop_end(void) { t_ws++; GOMP_barrier(); }
+void GOMP_loop_end_nowait(void) { t_ws++; }
+bool GOMP_loop_end_cancel(void) { GOMP_loop_end(); return false; }
+void GOMP_critical_start(void) { pthread_mutex_lock(&g_crit); }
+void GOMP_critical_end(void) { pthread_mutex_unlock(&g_crit); }
+void GOMP_critical_name_start(void **) { pthread_mutex_lock(&g_crit); }
+void GOMP_critical_name_end(void **) { pthread_mutex_unlock(&g_crit); }
+void GOMP_atomic_start(void) { pthread_mutex_lock(&g_atomic); }
+void GOMP_atomic_end(void) { pthread_mutex_unlock(&g_atomic); }
+bool GOMP_single_start(void)
+{
+    Region *r = reg();
+    if (t_team < 2) return true;
+    pthread_mutex_lock(&r->mu);
+    size_t mine = ++t_single;
+    bool first = mine > r->singles_done;
+    if (first) r->singles_done = mine;
+    pthread_mutex_unlock(&r->mu);
+    return first;
+}
+void GOMP_task(void (*fn)(void *), void *data, void (*cpyfn)(void *, void *), long arg_size, long arg_align, bool, unsigned, void **, int, void *)
+{
+    if (cpyfn)
+    {
+        char *buf = (char *)malloc((size_t)arg_size + (size_t)arg_align);
+        char *arg = (char *)(((uintptr_t)buf + (uintptr_t)arg_align - 1) & ~((uintptr_t)arg_align - 1));
+        cpyfn(arg, data);
+        fn(arg);
+        free(buf);
+    }
+    else fn(data);
+}
+void GOMP_taskwait(void) {}
+void GOMP_taskgroup_start(void) {}
+void GOMP_taskgroup_end(void) {}
 }
